@@ -1,6 +1,6 @@
 /-
 Driver entry for property C09.
-  request : `spec <cr> <entry> <fmt> <kind> <otype> <name>`
+  request : `spec <cr> <entry> <fmt> <kind> <otype> <name> <pathform>`
             <cr> = `-` or a comma separated list of `otype:entry:fmt` triples whose class-level codec raises by itself
   response: the canonical text of `Molli.Model.Dispatch.spec cr cell`
 -/
@@ -25,10 +25,10 @@ def crOf (l : List (OType × Entry × Fmt)) : ClassRaises :=
 
 def handle (payload : String) : String :=
   match Molli.Util.words payload with
-  | ["spec", cr, e, f, k, o, n] =>
-    match parseCr cr, Entry.parse? e, Fmt.parse? f, Kind.parse? k, OType.parse? o, NameArg.parse? n with
-    | some cr, some e, some f, some k, some o, some n => (spec (crOf cr) ⟨e, f, k, o, n⟩).txt
-    | _, _, _, _, _, _ => "err:syntax"
+  | ["spec", cr, e, f, k, o, n, pf] =>
+    match parseCr cr, Entry.parse? e, Fmt.parse? f, Kind.parse? k, OType.parse? o, NameArg.parse? n, PathForm.parse? pf with
+    | some cr, some e, some f, some k, some o, some n, some pf => (spec (crOf cr) ⟨⟨e, f, k, o, n⟩, pf⟩).txt
+    | _, _, _, _, _, _, _ => "err:syntax"
   | _ => "err:syntax"
 
 end Molli.Driver.C09
